@@ -131,7 +131,8 @@ class Ctx:
         m["violations"] += 1
         mech = mech or ("unclassified:" + monitor)
         self.mech_counts[mech] += 1
-        if self.mech_counts[mech] <= 3 and len(self.witnesses) < MAX_WITNESSES_KEPT:
+        # the first witness of every mechanism is always kept (verdict lines are generated from stored witnesses)
+        if self.mech_counts[mech] == 1 or (self.mech_counts[mech] <= 3 and len(self.witnesses) < MAX_WITNESSES_KEPT):
             self.witnesses.append({
                 "property": self.pid, "monitor": monitor, "mech": mech,
                 "family": self.family, "k": self.k, "seed": self.seed, "tier": self.tier,
@@ -320,6 +321,10 @@ def finish(mod, tier, seed, merged, wall, replay_mode=False):
         if mech in open_f:
             known_seen[mech] = max(known_seen[mech], c)
     n_new = sum(c for m, c in merged["mech_counts"].items() if m not in open_f)
+    for mech, c in merged["mech_counts"].items():
+        if mech not in open_f and mech not in new_by_mech:  # counted but no stored witness: still a violation
+            new_by_mech[mech] = {"property": pid, "monitor": "?", "mech": mech, "family": "?", "k": -1, "seed": seed,
+                                 "tier": tier, "detail": {"note": "witness not stored", "count": c}}
 
     lines = []
     os.makedirs(os.path.join(VERIF, "replays"), exist_ok=True)
